@@ -138,12 +138,29 @@ type vxC16Row struct { // one row of the cluster's truth
 	Kind             string // "" valid | norack nodc notokens noid allnull
 	Fresh            bool   // invalid row with no node behind it
 	Dup              bool   // second row carrying the host id of another row
+	Peer             string // node-to-node address the cluster reports ("" = IP): peers.peer / local.broadcast_address
+}
+
+func (r vxC16Row) peerAddr() string {
+	if r.Peer != "" {
+		return r.Peer
+	}
+	return r.IP
 }
 
 type vxC16Member struct {
 	ip  string
+	peer string // node-to-node address (what the ring's by-address index and status events use); "" = ip
+	bcast bool  // the driver's HostInfo carries a broadcast_address (it was built from, or merged with, a system.local row)
 	up  bool       // expectation at quiescence: connected and offered (true) / not offered, no pool (false)
 	via *vxC16Host // the node object the member's pool is connected to
+}
+
+func (m *vxC16Member) addr() string {
+	if m.peer != "" {
+		return m.peer
+	}
+	return m.ip
 }
 
 // connect models a pool fill for m: it succeeds iff a node accepts connections at m's address.
@@ -176,6 +193,7 @@ type vxC16World struct {
 	reject map[int]bool
 
 	nextOctet int
+	nextPeer  int
 	nextID    int
 	free      []string // addresses whose node has left
 	peersErr  bool
@@ -279,7 +297,7 @@ func (w *vxC16World) kill(h *vxC16Host) []*vnode.ServerConn {
 func (w *vxC16World) publish() {
 	var specs []vnode.HostSpec
 	for _, r := range w.rows {
-		s := vnode.HostSpec{IP: r.IP, Port: 9042, HostID: r.ID, DC: r.DC, Rack: r.Rack, Tokens: r.Tokens, Version: "3.11.4"}
+		s := vnode.HostSpec{IP: r.IP, Port: 9042, HostID: r.ID, DC: r.DC, Rack: r.Rack, Tokens: r.Tokens, Version: "3.11.4", Peer: r.Peer}
 		switch r.Kind {
 		case "norack":
 			s.Rack = ""
@@ -336,8 +354,9 @@ func (w *vxC16World) modelRefresh(actual map[string]string) {
 	dupIDs := false
 	local, peers := w.reported()
 	type ent struct {
-		ips []string
-		dc  string
+		ips   []string
+		peers []string
+		dc    string
 	}
 	rep := map[string]*ent{}
 	var order []string
@@ -352,6 +371,7 @@ func (w *vxC16World) modelRefresh(actual map[string]string) {
 			dupIDs = true
 		}
 		e.ips = append(e.ips, r.IP)
+		e.peers = append(e.peers, r.peerAddr())
 	}
 	add(local)
 	w.nullIDRow = false
@@ -367,19 +387,23 @@ func (w *vxC16World) modelRefresh(actual map[string]string) {
 	next := map[string]*vxC16Member{}
 	for _, id := range order {
 		e := rep[id]
-		ip := e.ips[0]
+		ip, peer := e.ips[0], e.peers[0]
 		if len(e.ips) > 1 {
 			// several rows for one host id: either address is acceptable; follow the driver's choice
-			for _, cand := range e.ips {
+			for ci, cand := range e.ips {
 				if actual[id] == cand {
-					ip = cand
+					ip, peer = cand, e.peers[ci]
 				}
 			}
 		}
 		if w.filtered(ip, e.dc) {
 			continue
 		}
-		if old := w.ring[id]; old != nil && old.ip == ip {
+		isLocal := id == vxC16Dashed(local.ID)
+		if old := w.ring[id]; old != nil && old.ip == ip && old.addr() == peer {
+			if isLocal {
+				old.bcast = true // host.update fills the (equal) broadcast address in
+			}
 			next[id] = old
 			continue
 		}
@@ -388,7 +412,7 @@ func (w *vxC16World) modelRefresh(actual map[string]string) {
 				w.reused[ip] = true
 			}
 		}
-		m := &vxC16Member{ip: ip}
+		m := &vxC16Member{ip: ip, peer: peer, bcast: isLocal}
 		w.connect(m)
 		next[id] = m
 	}
@@ -534,8 +558,8 @@ func (w *vxC16World) discrepancies() (ds []vxC16Disc, busy string) {
 		if got := h.ConnectAddress().String(); got != m.ip {
 			add("ring-addr", id, m.ip, "host %s is reported at %s but the ring has it at %s", id, m.ip, got)
 		}
-		if got := h.nodeToNodeAddress().String(); got != m.ip {
-			add("ring-addr", id, m.ip, "host %s is reported at %s but the ring's node-to-node address is %s", id, m.ip, got)
+		if got := h.nodeToNodeAddress().String(); got != m.addr() {
+			add("ring-addr", id, m.ip, "host %s is reported with node-to-node address %s but the ring's node-to-node address is %s", id, m.addr(), got)
 		}
 		if h.HostID() != id {
 			add("ring-key", id, m.ip, "ring.hosts[%s] holds a HostInfo whose id is %s", id, h.HostID())
@@ -730,7 +754,31 @@ func (w *vxC16World) dump() string {
 	if w.ctl != nil {
 		b.WriteString(" | control=" + w.ctl.ip)
 	}
+	b.WriteString(" | policy lists:")
+	for _, h := range vxC16PolicyHosts(w.s.policy) {
+		fmt.Fprintf(&b, " %s@%s %s", h.HostID()[:8], h.ConnectAddress(), h.State())
+	}
 	return b.String()
+}
+
+// vxC16PolicyHosts lists what the policy's copy-on-write lists hold (white-box; including hosts that
+// Pick hides because they are down).
+func vxC16PolicyHosts(p HostSelectionPolicy) []*HostInfo {
+	switch x := p.(type) {
+	case *roundRobinHostPolicy:
+		return x.hosts.get()
+	case *dcAwareRR:
+		return append(append([]*HostInfo{}, x.localHosts.get()...), x.remoteHosts.get()...)
+	case *rackAwareRR:
+		var out []*HostInfo
+		for i := range x.hosts {
+			out = append(out, x.hosts[i].get()...)
+		}
+		return out
+	case *tokenAwareHostPolicy:
+		return append(append([]*HostInfo{}, x.hosts.get()...), vxC16PolicyHosts(x.fallback)...)
+	}
+	return nil
 }
 
 // classify recognises the confirmed defects of /repo (narrowly): every discrepancy must belong to one.
@@ -763,6 +811,18 @@ func (w *vxC16World) classify(ds []vxC16Disc) error {
 				cls = "reuse"
 			}
 		}
+		// (2b) the same mechanism across steps: the policy's list (keyed by connect address) still holds a
+		// HostInfo that is no longer the ring member filed under that address (it left the address earlier and
+		// a late AddHost put it back, hidden while it is down), so AddHost for the present owner is refused
+		if cls == "" && d.kind == "offer-missing" {
+			if cur := w.s.ring.getHost(d.id); cur != nil {
+				for _, ph := range vxC16PolicyHosts(w.s.policy) {
+					if ph != cur && ph.ConnectAddress().Equal(cur.ConnectAddress()) && w.s.ring.getHost(ph.HostID()) != ph {
+						cls = "reuse"
+					}
+				}
+			}
+		}
 		// (4) an UP event started a connection to a host which the refresh of the same batch then removed
 		// (or moved): pool.fill's "go handleNodeConnected(host)" may run after removeHost and puts the
 		// removed HostInfo back into the policy (HostUp = AddHost), where nothing removes it any more
@@ -784,7 +844,7 @@ func (w *vxC16World) classify(ds []vxC16Disc) error {
 		return vx.Known("C16-late-connected-readds-removed-host", "step %d: a host that was being connected (UP event) while the refresh removed it is back in the selection policy: %s", w.step, vxC16Fmt(ds))
 	}
 	if first == "reuse" {
-		return vx.Known("C16-addr-reuse-loses-new-owner", "step %d: a host took over the address of a host that left it in the same refresh: %s", w.step, vxC16Fmt(ds))
+		return vx.Known("C16-addr-reuse-loses-new-owner", "step %d: a host owns an address that a HostInfo which left it still occupies in the policy's address-keyed list: %s", w.step, vxC16Fmt(ds))
 	}
 	return vx.Known("C16-null-hostid-peer-accepted", "step %d: a system.peers row with a null host_id was accepted as a ring member: %s", w.step, vxC16Fmt(ds))
 }
@@ -885,6 +945,11 @@ func (w *vxC16World) controlMoved(old *connHost) error {
 		return errVxC16Stop
 	}
 	if m := w.ring[id]; m != nil {
+		if !m.bcast {
+			// setupConn merges the node's system.local row into the known host (ring.addOrUpdate): a host
+			// learnt from system.peers has no broadcast address yet, the one filled in takes precedence
+			m.peer, m.bcast = local.peerAddr(), true
+		}
 		if !m.up {
 			w.connect(m) // setupConn: go startPoolFill(host)
 		}
@@ -899,7 +964,7 @@ func (w *vxC16World) controlMoved(old *connHost) error {
 				w.reused[local.IP] = true
 			}
 		}
-		m := &vxC16Member{ip: local.IP}
+		m := &vxC16Member{ip: local.IP, peer: local.peerAddr(), bcast: true}
 		w.connect(m)
 		w.ring[id] = m
 	}
@@ -950,6 +1015,20 @@ func (w *vxC16World) doRefresh() error {
 	}
 	w.modelRefresh(w.actualAddrs())
 	return nil
+}
+
+// statusEvent hands one STATUS_CHANGE event for m (named by its node-to-node address) to the driver
+// and applies it to the model.
+func (w *vxC16World) statusEvent(m *vxC16Member, kind string) {
+	if kind == "DOWN" {
+		m.up, m.via = false, nil
+	} else if !m.up {
+		w.connect(m)
+		if m.up {
+			w.connecting[w.idOf(m)] = true
+		}
+	}
+	w.s.handleNodeEvent([]frame{&statusChangeEventFrame{change: kind, host: net.ParseIP(m.addr()).To4(), port: 9042}})
 }
 
 // alternative: after losing `except` the control connection can move to another node, i.e. some ring
@@ -1187,6 +1266,94 @@ func (w *vxC16World) apply(st vxC16Step) (skipped bool, err error) {
 		}
 		w.publish()
 
+	case "peerflip":
+		// A node keeps the address clients connect to (rpc_address) and is reported under another
+		// node-to-node address; a refresh tells the driver, a status event names the node by the new
+		// address, then the node is reported under its single address again and a second refresh
+		// follows ("peermove" leaves the two-address state in place instead).
+		if w.peersErr || w.slow {
+			return true, nil
+		}
+		var cands []int
+		for _, i := range w.realRows(true) {
+			if h := w.hostByRow(w.rows[i]); h != nil && h != w.ctl {
+				cands = append(cands, i)
+			}
+		}
+		if len(cands) == 0 {
+			return true, nil
+		}
+		id := w.rows[cands[st.I%len(cands)]].ID
+		setPeer := func(p string) {
+			for j := range w.rows {
+				if w.rows[j].ID == id {
+					w.rows[j].Peer = p
+				}
+			}
+			w.publish()
+		}
+		w.nextPeer++
+		setPeer("172.16.0." + strconv.Itoa(w.nextPeer%250+1))
+		if w.added {
+			w.changed = true
+		}
+		if err := w.doRefresh(); err != nil {
+			return false, err
+		}
+		if err := w.settle("peerflip: refresh after the node-to-node address changed", nil); err != nil {
+			return false, err
+		}
+		if m := w.ring[vxC16Dashed(id)]; m != nil && st.J%3 != 0 {
+			w.statusEvent(m, "DOWN")
+			if err := w.settle("peerflip: DOWN event for the new node-to-node address", nil); err != nil {
+				return false, err
+			}
+			w.k.Class("peerflip:down-event")
+			if st.J%3 == 1 {
+				w.statusEvent(m, "UP")
+				if err := w.settle("peerflip: UP event for the new node-to-node address", nil); err != nil {
+					return false, err
+				}
+				w.k.Class("peerflip:up-event")
+			}
+			w.connecting, w.lateUp = map[string]bool{}, map[string]bool{}
+		}
+		setPeer("")
+		if err := w.doRefresh(); err != nil {
+			return false, err
+		}
+		w.k.Class("peerflip")
+
+	case "peermove":
+		// the two-address state persists over the following steps: a node keeps the address clients
+		// connect to and is reported under another node-to-node address (the driver learns it from the
+		// next refresh, or from system.local when the control connection moves there); Flag: back to one address
+		var cands []int
+		for _, i := range w.realRows(true) {
+			if h := w.hostByRow(w.rows[i]); h != nil && h != w.ctl {
+				cands = append(cands, i)
+			}
+		}
+		if len(cands) == 0 || w.slow {
+			return true, nil
+		}
+		id := w.rows[cands[st.I%len(cands)]].ID
+		np := ""
+		if !st.Flag || w.rows[cands[st.I%len(cands)]].Peer == "" {
+			w.nextPeer++
+			np = "172.16.0." + strconv.Itoa(w.nextPeer)
+		}
+		for j := range w.rows {
+			if w.rows[j].ID == id {
+				w.rows[j].Peer = np
+			}
+		}
+		w.publish()
+		if w.added {
+			w.changed = true
+		}
+		w.k.Class("peermove")
+
 	case "dup":
 		cands := w.realRows(true)
 		if len(cands) == 0 {
@@ -1236,13 +1403,13 @@ func (w *vxC16World) apply(st vxC16Step) (skipped bool, err error) {
 		ringIPs := map[string]bool{}
 		for id, m := range w.ring {
 			mids = append(mids, id)
-			ringIPs[m.ip] = true
+			ringIPs[m.addr()] = true // events name a node by its node-to-node address
 		}
 		sort.Strings(mids)
 		var unknownReported []string
 		for _, r := range w.rows {
-			if !ringIPs[r.IP] {
-				unknownReported = append(unknownReported, r.IP)
+			if !ringIPs[r.peerAddr()] {
+				unknownReported = append(unknownReported, r.peerAddr())
 			}
 		}
 		var frames []frame
@@ -1254,7 +1421,7 @@ func (w *vxC16World) apply(st vxC16Step) (skipped bool, err error) {
 			cls := ""
 			switch {
 			case e.Who == 0 && len(mids) > 0:
-				ip, cls = w.ring[mids[e.Sel%len(mids)]].ip, "known"
+				ip, cls = w.ring[mids[e.Sel%len(mids)]].addr(), "known"
 			case e.Who <= 1 && len(unknownReported) > 0:
 				ip, cls = unknownReported[e.Sel%len(unknownReported)], "reported-unknown"
 			default:
@@ -1283,7 +1450,7 @@ func (w *vxC16World) apply(st vxC16Step) (skipped bool, err error) {
 				continue
 			}
 			for _, m := range w.ring {
-				if m.ip == ip {
+				if m.addr() == ip {
 					if status[ip] == "DOWN" {
 						m.up, m.via = false, nil
 					} else if !m.up {
@@ -1472,13 +1639,13 @@ func (w *vxC16World) burst(evs []vxC16Ev) error {
 	ringIPs := map[string]bool{}
 	for id, m := range w.ring {
 		mids = append(mids, id)
-		ringIPs[m.ip] = true
+		ringIPs[m.addr()] = true // events name a node by its node-to-node address
 	}
 	sort.Strings(mids)
 	var unknownReported []string
 	for _, r := range w.rows {
-		if !ringIPs[r.IP] {
-			unknownReported = append(unknownReported, r.IP)
+		if !ringIPs[r.peerAddr()] {
+			unknownReported = append(unknownReported, r.peerAddr())
 		}
 	}
 	status := map[string]string{}
@@ -1489,7 +1656,7 @@ func (w *vxC16World) burst(evs []vxC16Ev) error {
 		ip, cls := "", ""
 		switch {
 		case e.Who == 0 && len(mids) > 0:
-			ip, cls = w.ring[mids[e.Sel%len(mids)]].ip, "known"
+			ip, cls = w.ring[mids[e.Sel%len(mids)]].addr(), "known"
 		case e.Who <= 1 && len(unknownReported) > 0:
 			ip, cls = unknownReported[e.Sel%len(unknownReported)], "reported-unknown"
 		default:
@@ -1531,7 +1698,7 @@ func (w *vxC16World) burst(evs []vxC16Ev) error {
 			continue
 		}
 		for _, m := range w.ring {
-			if m.ip == ip {
+			if m.addr() == ip {
 				if status[ip] == "DOWN" {
 					m.up, m.via = false, nil
 				} else if !m.up {
@@ -1837,6 +2004,7 @@ var vxC16Ops = []string{
 	"replace",
 	"invalid", "invalid",
 	"dup",
+	"peerflip", "peerflip", "peermove", "peermove",
 	"heal",
 	"refresh", "refresh", "refresh", "refresh", "refresh", "refresh", "refresh",
 	"peerserr",
@@ -1872,6 +2040,12 @@ func vxC16DrawStep(t *rapid.T, salt uint64, pos int) vxC16Step {
 		st.Flag = rapid.Bool().Draw(t, "dies")
 	case "replace", "crash", "restart":
 		st.I = vxC16Pick(t, "i", 8, salt, pos*16+1)
+	case "peerflip":
+		st.I = vxC16Pick(t, "i", 8, salt, pos*16+1)
+		st.J = vxC16Pick(t, "event", 3, salt, pos*16+2)
+	case "peermove":
+		st.I = vxC16Pick(t, "i", 8, salt, pos*16+1)
+		st.Flag = vxC16Pick(t, "back", 3, salt, pos*16+2) == 0
 	case "invalid":
 		st.I = vxC16Pick(t, "i", 8, salt, pos*16+1)
 		st.J = vxC16Pick(t, "kind", 5, salt, pos*16+2)
@@ -1921,7 +2095,7 @@ func vxC16Draw(t *rapid.T) interface{} {
 func TestVxC16History(t *testing.T) {
 	vx.Check(t, vx.Prop{
 		ID: "C16", Part: "TestVxC16History",
-		Rule: "history of 5..16 pre-drawn steps (add / remove / move / replace a node, invalid and duplicate peers rows, heal, refresh, system.peers failure, batches of 1..4 status/topology events for known and unknown addresses, control-connection loss, node crash/restart, reconnect tick, query) over 1..4 initial nodes x 5 policies x optional host filter; steps that do not apply are skipped; non-trivial = a removal, address change, replacement or invalidation of a node happened after an addition and a later successful refresh reported it; distinct by the whole case",
+		Rule: "history of 5..16 pre-drawn steps (add / remove / move / replace a node, a node reported under another node-to-node address with its client address kept (within one step: refresh, status event for the new address, back; or persisting over later steps), invalid and duplicate peers rows, heal, refresh, system.peers failure, batches of 1..4 status/topology events for known and unknown addresses, control-connection loss, node crash/restart, reconnect tick, query) over 1..4 initial nodes x 5 policies x optional host filter; steps that do not apply are skipped; non-trivial = a removal, address change, replacement or invalidation of a node happened after an addition and a later successful refresh reported it; distinct by the whole case",
 		Draw: vxC16Draw,
 		New:  func() interface{} { return &vxC16Case{} },
 		Run:  vxC16Budget(vxC16Run),
